@@ -131,7 +131,7 @@ theorem inv_put (C : Codec) (H : Bytes → String) {d : Disk} (h : DiskInv d) (k
   split
   · exact h
   split
-  · exact h
+  · split <;> exact h
   rename_i hneg _ hlen _
   have hlen64 : hash.length = 64 := by simpa using hlen
   have hr : Inv (if size > 0 then reserve d.lru size else (d.lru, none)).1 ∧
